@@ -16,7 +16,7 @@ int main(int argc, char **argv) {
     rc::detail::TestParams tp; tp.seed = mix64(seed ^ 0xc13); tp.maxSuccess = cases; tp.maxSize = 100; rc::detail::TestMetadata md; md.id = "C13:names"; md.description = md.id;
     auto fn = [&]() { if (budget == 0) return; if (budget > 0) budget--;
       auto ent = *rc::gen::container<std::vector<uint64_t>>(160, rc::gen::resize(rc::kNominalSize, rc::gen::arbitrary<uint64_t>())); Draw d(ent);
-      C13Case c; c.prec = d.range(0, 1); c.handle = HANDLES[d.range(0, NHANDLES - 1)]; std::string base = cat[d.range(0, (int)cat.size() - 1)]; int mode = d.range(0, 9); std::string s; std::string label;
+      C13Case c; c.prec = d.range(0, 1); c.handle = HANDLES[d.range(0, NHANDLES - 1)]; std::string base = cat[d.range(0, (int)cat.size() - 1)]; int mode = d.range(0, 10); std::string s; std::string label;
       if (mode <= 4) { label = "decorated"; // case flips + runs of 0..3 separators at every gap, including before the first and after the last character
         int maxrun = 0; bool lead = false, trail = false; auto run = [&](bool force) { int n = d.coin(0.25) || force ? d.range(1, 3) : 0; std::string r; for (int i = 0; i < n; i++) r += d.coin(0.5) ? '-' : ' '; if (n > maxrun) maxrun = n; return r; };
         std::string r0 = run(mode == 1); lead = !r0.empty(); s = r0; for (size_t i = 0; i < base.size(); i++) { char ch = base[i]; if (d.coin(0.3) && ch >= 'a' && ch <= 'z') ch = char(ch - 32); s += ch; std::string r = run(mode == 2 && i + 1 == base.size()); if (i + 1 == base.size()) trail = !r.empty(); s += r; }
@@ -26,7 +26,8 @@ int main(int argc, char **argv) {
       else if (mode == 6) { label = "underscore removed or other separator inserted"; s = base; if (d.coin(0.5) && s.find('_') != std::string::npos) s.erase(s.find('_'), 1); else { const char other[] = {'\t', '.', '_', '\n', '+', '/'}; s.insert(d.range(0, (int)s.size()), 1, other[d.range(0, 5)]); } st.count("class:nontrivial"); Hasher h; h.str(s); st.distinct.insert(h.h); }
       else if (mode == 7) { label = "random printable string"; int n = d.range(0, 24); for (int i = 0; i < n; i++) s += char(d.range(32, 126)); }
       else if (mode == 8) { label = "prefix / extension of a name"; s = d.coin(0.5) ? base.substr(0, d.range(0, (int)base.size() - 1)) : base + base.substr(0, d.range(1, 3)); }
-      else { label = "raw bytes"; int n = d.range(0, 12); for (int i = 0; i < n; i++) s += char(d.range(1, 255)); }
+      else if (mode == 10) { label = "name followed by NUL and more"; s = base; s += '\0'; int n = d.range(0, 3); for (int i = 0; i < n; i++) s += char(d.range(32, 126)); st.count("class:nontrivial"); Hasher h; h.str(s); st.distinct.insert(h.h); }
+      else { label = "raw bytes"; int n = d.range(0, 12); for (int i = 0; i < n; i++) s += char(d.range(0, 255)); }
       c.s = s; st.count("cases"); st.count("evaluations"); st.count("class:input=" + label); write_file(faildir + "/current.case", c13_text(c));
       std::map<std::string, long> cls; std::string r = c13_case(cat, c.handle, c.s, c.prec, cls); for (auto &kv : cls) st.count("class:" + kv.first, kv.second);
       if (st.samples.size() < st.max_samples && st.counters["cases"] % 53 == 1) st.sample("{\"handle\":\"" + jesc(c.handle) + "\",\"name\":\"" + jesc(show(c.s)) + "\",\"kind\":\"" + label + "\",\"normal_form\":\"" + jesc(show(norm(c.s))) + "\",\"in_catalogue\":" + (std::find(cat.begin(), cat.end(), norm(c.s)) != cat.end() ? "true" : "false") + "}");
